@@ -725,7 +725,17 @@ impl TieredEngine {
         &self,
         doc_id: u64,
     ) -> Option<(Vec<f32>, std::collections::HashMap<String, String>)> {
-        if let Some(metadata) = self.cold_tier.fetch_metadata(doc_id) {
+        // The vector and the metadata returned together must belong to the same write, so both
+        // (and the token of that write) are read from the canonical store in one critical
+        // section. A hot-tier embedding is only paired with this metadata when it carries
+        // exactly that token; otherwise a concurrent overwrite landed in between.
+        if let Some((canonical_embedding, metadata, canonical_coherence)) = self
+            .cold_tier
+            .bulk_fetch_with_coherence(&[doc_id])
+            .into_iter()
+            .next()
+            .flatten()
+        {
             if let Some((embedding, coherence)) = self.hot_tier.get_with_coherence(doc_id) {
                 match self.canonical_vector_state(
                     doc_id,
@@ -733,18 +743,17 @@ impl TieredEngine {
                     coherence,
                     "document-with-metadata hot-tier hit",
                 ) {
-                    CanonicalVectorState::Match => return Some((embedding, metadata)),
+                    CanonicalVectorState::Match if coherence == canonical_coherence => {
+                        return Some((embedding, metadata))
+                    }
+                    CanonicalVectorState::Match => {}
                     CanonicalVectorState::TokenMismatch | CanonicalVectorState::LocalCorruption => {
                         self.discard_stale_hot_mirror(doc_id, "document-with-metadata hot-tier hit")
                     }
                     CanonicalVectorState::Missing => {}
                 }
             }
-            if let Some((embedding, _coherence)) =
-                self.cold_tier.fetch_document_with_coherence(doc_id)
-            {
-                return Some((embedding, metadata));
-            }
+            return Some((canonical_embedding, metadata));
         }
 
         if self.hot_tier.exists(doc_id) {
@@ -966,15 +975,30 @@ impl TieredEngine {
                     "bulk query hot-tier hit",
                 ) {
                     CanonicalVectorState::Match => {
-                        if let Some(canonical_metadata) = self.cold_tier.fetch_metadata(doc_id) {
-                            results[i] =
-                                Some((embedding, canonical_metadata, PointQueryTier::HotTier));
-                        } else {
-                            warn!(
-                                doc_id,
-                                "bulk query found canonical vector without canonical metadata; falling back to cold tier"
-                            );
-                            missing_indices.push(i);
+                        // Pair the hot embedding only with metadata of the same write: read the
+                        // canonical metadata together with its token and require the token the
+                        // hot entry carries; otherwise take the atomic cold-tier pair below.
+                        match self
+                            .cold_tier
+                            .bulk_fetch_with_coherence(&[doc_id])
+                            .into_iter()
+                            .next()
+                            .flatten()
+                        {
+                            Some((_, canonical_metadata, canonical_coherence))
+                                if canonical_coherence == coherence =>
+                            {
+                                results[i] =
+                                    Some((embedding, canonical_metadata, PointQueryTier::HotTier));
+                            }
+                            Some(_) => missing_indices.push(i),
+                            None => {
+                                warn!(
+                                    doc_id,
+                                    "bulk query found canonical vector without canonical metadata; falling back to cold tier"
+                                );
+                                missing_indices.push(i);
+                            }
                         }
                     }
                     CanonicalVectorState::TokenMismatch | CanonicalVectorState::LocalCorruption => {
